@@ -64,7 +64,7 @@ func genSecret(r *sim.Rand, tag string) string {
 }
 
 func (p *c16) Gen(seed uint64, i int, tier string) (any, bool) {
-	n := 8000
+	n := 60000
 	if tier == "thorough" {
 		n = 400000
 	}
